@@ -20,7 +20,8 @@ from .util import *
 VECTOR_TYPES = ("any_vec::AnyVec", "any_vec_raw::AnyVecRaw", "any_vec_typed::AnyVecTyped", "any_vec::AnyVecMut", "any_vec::AnyVecRef")
 TRACKED = ("P", "A", "V", "D")      # vectors that exist before the operation: parameters, and what a parameter's pointer / reference designates
 RELEVANT = ("STORE", "DESTROY", "COPY", "SWAP", "WRITE", "READ", "MOVE_INTO", "CLONE_INTO", "CLONE", "USER", "UNKNOWN")
-MAX_STEPS = 60000
+MAX_STEPS = 6000
+MAX_SECONDS = 4.0        # per operation and arm: beyond that the operation is listed as not decided
 
 
 def _inconsistent(facts):
@@ -520,9 +521,12 @@ def _walk(ctx, I, fpath, rel_nodes, accts0=None, unfinished=False, cursor=None):
         def get(self, k, default=None):
             return self.e.get(k, default)
 
+    import time as _time
+    t0 = _time.time()
+
     def dfs(g, accts, onpath, pf):
         steps[0] += 1
-        if steps[0] > MAX_STEPS:
+        if steps[0] > MAX_STEPS or (steps[0] % 20 == 0 and _time.time() - t0 > MAX_SECONDS):
             raise Undecided("too many paths")
         if g in onpath:
             cyc = onpath[onpath.index(g):]
